@@ -1,4 +1,5 @@
 import SluProofs.Lemmas.LUInv
+import SluProofs.Lemmas.CxRat
 /-
 C02 — Factors reproduce the permuted matrix; pivoting bounds hold.
 
@@ -229,5 +230,25 @@ example : (luFactor exP false).U.getD 0 #[] = #[4] := by decide +kernel
 example : (luFactor exP false).L.getD 0 #[] = #[1/2, 1, 1/4] := by decide +kernel
 /-- a singular matrix (two equal columns) is reported at its second column -/
 example : (luFactor { exP with col := fun j => if j = 1 then exCols 0 else exCols j } false).info = 2 := by decide +kernel
+
+/-- the complex magnitude `|re| + |im|` over the Gaussian rationals satisfies the laws, so every
+theorem above applies verbatim to complex data (`Field (Cx Rat)` is proved in Lemmas/CxRat.lean).
+It is NOT multiplicative, which is why `luFactor_multiplier_le_inv_u` is stated for real data only;
+the numerator form `luFactor_multiplier_bound` is what holds for complex data. -/
+theorem magLaws_cx : MagLaws (Cx Rat) where
+  nonneg := fun z => add_nonneg (rabs_nonneg _) (rabs_nonneg _)
+  zero := by
+    show rabs (0 : Cx Rat).re + rabs (0 : Cx Rat).im = 0
+    simp [Cx.zero_def]
+  definite := fun z h => by
+    have h' : rabs z.re + rabs z.im = 0 := h
+    have h1 := rabs_nonneg z.re; have h2 := rabs_nonneg z.im
+    have e1 : rabs z.re = 0 := by linarith
+    have e2 : rabs z.im = 0 := by linarith
+    simp at e1 e2
+    cases z; simp_all [Cx.zero_def]
+
+example (P : Params (Cx Rat) Rat) (hP : Legal P) (h : (luFactor P false).info = 0) (j : Nat) (hj : j < P.n) (i : Nat) (hi : i < P.m) :=
+  luFactor_identity magLaws_cx P hP false h j hj i hi
 
 end Slu.LU
